@@ -27,12 +27,14 @@ class SeqEq:
     def __init__(self, pc, timeout_ms=60000, stats=None):
         self.s = z3.Solver()
         self.s.set("timeout", timeout_ms)
-        for c in pc:
-            self.s.add(c)
         self.classes = []   # (fname, flat_arg, var)
         self.memo_bv = {}
         self.stats = stats if stats is not None else {}
         self.n = 0
+        for c in pc:
+            # path-condition literals may mention uninterpreted functions of byte strings (e.g. the length of the
+            # separator-free subscript): abstract them with the same class variables as the compared terms
+            self.s.add(self.abstract(c))
 
     def _check(self, *assumptions):
         t0 = time.time()
@@ -109,6 +111,18 @@ class SeqEq:
                 if var is None:
                     self.n += 1
                     var = z3.Const(f"{name}#{self.n}", bv.sort())
+                    # Ackermann: functional consistency with every earlier application of the same function whose
+                    # argument has the same shape (equal argument bytes => equal results); so a model in which two
+                    # digests differ also makes their preimages differ
+                    for (n2, f2, v2) in self.classes:
+                        if n2 != name:
+                            continue
+                        try:
+                            eqs = self.align(flat, f2)
+                        except Mismatch:
+                            continue
+                        if eqs:
+                            self.s.add(z3.Implies(z3.And(*eqs), var == v2))
                     self.classes.append((name, flat, var))
                 r = var
             else:
